@@ -946,20 +946,20 @@ typedef struct {
     char magic[64];
 } cx_gen_t;
 static cx_gen_t cx_g;
-static const char *CX_UNKNOWN[] = { "nosuch", "ghost", "x9", "alphax" };
+static const char *CX_UNKNOWN[] = { "nosuch", "ghost", "x9", "alphax", "alph", "gam", "c1", "et" };      /* incl. proper prefixes of names that may be registered (alpha, gamma, c1x, eta): unknown all the same */
 
 static const char *cx_gen_ctx_name(void)
 {
     static char buf[32];
     int r = (int) vh_below(100);
     if (r < 70 || cx_g.n_reg == 0) {
-        if (cx_g.n_reg == 0 || cx_g.ctxs->n < 2) return CX_UNKNOWN[vh_below(4)];
+        if (cx_g.n_reg == 0 || cx_g.ctxs->n < 2) return CX_UNKNOWN[vh_below(8)];
         int id = 1 + (int) vh_below((uint64_t) (cx_g.ctxs->n - 1));
         snprintf(buf, sizeof buf, "%s", cx_g.ctxs->names[id]);
         if (vh_coin(8)) for (char *p = buf; *p; p++) *p = (char) toupper((unsigned char) *p);    /* documented: case-insensitive */
         return buf;
     }
-    if (r < 90) return CX_UNKNOWN[vh_below(4)];
+    if (r < 90) return CX_UNKNOWN[vh_below(8)];
     return "null";
 }
 static void cx_gen_line(cx_file *f, const char *body)
